@@ -419,11 +419,12 @@ theorem mem_outputOps (s : St) (bn txi oi : Nat) (tx : Tx) (o : Output) (op : Op
       rw [if_pos hr]
       simpa [IsOutOp] using hop
 
-/-- the creating transaction as `filter_block` finds it: store first, then this block -/
+/-- the creating transaction as `filter_block` finds it: the earlier transactions of this block
+first, then the store -/
 def prevOf (s : St) (inB : List (Nat × TxRec)) (h : Nat) : Option TxRec :=
-  match lookup s.txs h with
+  match lookup inB h with
   | some r => some r
-  | none => lookup inB h
+  | none => lookup s.txs h
 
 def txIns (s : St) (bn txi : Nat) (inB : List (Nat × TxRec)) (tx : Tx) : List Op :=
   (enum tx.inputs).flatMap (fun p => inputOps s bn txi p.1 tx p.2 (prevOf s inB p.2.tx))
